@@ -32,15 +32,30 @@ def _demo_d2(P):
     return demo
 
 
+def _demo_d18(P):
+    def demo():
+        import check
+        ops = [l.strip() for l in open("/verif/corpus/vsock/known_d18_zero_window_no_probe.ops") if l.strip()]
+        (res,), _tr = check.run_cases([ops])
+        # still silent an hour later: the last poll emits nothing and ends Pending
+        still_silent = res[0][-1].startswith("pending out=[]")
+        return still_silent and any(h["sig"].get("oracle") == "zero_window" for h in VO.oracle_zero_window_probe(ops, res[0]))
+    return demo
+
+
 def register(P):
     import json as _json
+    P.KNOWN_DEMOS[_json.dumps({"oracle": "zero_window", "what": "no_timer_armed_while_data_waits_behind_zero_window"}, sort_keys=True)] = _demo_d18(P)
+    P.ORACLE_COMPONENT["zero_window_probe"] = "vsock"
+    P.ORACLE_COMPONENT["fin_sent"] = "vsock"
+    P.ORACLE_COMPONENT["nagle"] = "vsock"
     P.KNOWN_DEMOS[_json.dumps({"oracle": "stream", "what": "diverged_after_delivered_probe_was_resplit"}, sort_keys=True)] = _demo_d2(P)
     reg(P, "C18", ["UtpVerif.Props.C18"], ["stream_content", "nagle"])
     reg(P, "C05", ["UtpVerif.Props.C05"], ["window"])
     reg(P, "C07", ["UtpVerif.Props.C07"], ["ack_timeliness"])
     reg(P, "C17", ["UtpVerif.Props.C17"], ["stream_content", "fin_sent"])
     reg(P, "C01", ["UtpVerif.Props.C01"], ["stream_content"], ["segs", "txring", "rx"])
-    reg(P, "C02", ["UtpVerif.Props.C02"], ["calls_resolve", "ack_timeliness", "rtx_timer"], ["txring", "rx"])
+    reg(P, "C02", ["UtpVerif.Props.C02"], ["calls_resolve", "ack_timeliness", "rtx_timer", "zero_window_probe"], ["txring", "rx"])
     reg(P, "C03", ["UtpVerif.Props.C03"], ["calls_resolve", "stream_content", "ack_honesty", "fin_sent"], ["txring", "rx"])
     reg(P, "C06", ["UtpVerif.Props.C06"], ["stream_content", "retx_cap"], ["segs"])
     reg(P, "C08", ["UtpVerif.Props.C08"], ["calls_resolve", "task_ends"])
